@@ -2,6 +2,7 @@ package main
 
 import (
 	"errors"
+	"fmt"
 	"os"
 
 	"github.com/anz-bank/mermaid-go/mermaid"
@@ -44,12 +45,23 @@ func (p *diagramCmd) Execute(args cmdutils.ExecuteArgs) error {
 	if err != nil {
 		return err
 	}
-	g := mermaid.Init()
-	svg := g.Execute(out)
-	if err := os.WriteFile(p.Output, []byte(svg), 0600); err != nil {
-		panic(err)
+	svg, err := renderMermaid(out)
+	if err != nil {
+		return err
 	}
-	return nil
+	return os.WriteFile(p.Output, []byte(svg), 0600)
+}
+
+// renderMermaid turns mermaid code into SVG with the headless browser that mermaid-go drives. That
+// library reports every failure (no browser installed, navigation errors) by panicking; the command
+// reports it as an ordinary error instead.
+func renderMermaid(code string) (svg string, err error) {
+	defer func() {
+		if r := recover(); r != nil {
+			err = fmt.Errorf("rendering the diagram failed: %v", r)
+		}
+	}()
+	return mermaid.Init().Execute(code), nil
 }
 
 func callDiagramGenerator(m *sysl.Module, p *diagramCmd) (string, error) {
